@@ -61,6 +61,29 @@ Proof.
   - auto.
 Qed.
 
+(* the i-th element exists and satisfies P (a Fixpoint on the list, so that it can carry a nested recursive call) *)
+Section NthSat.
+  Context {A : Type} (P : A -> Prop).     (* the predicate outside the fixpoint: usable for nested recursion *)
+  Fixpoint nth_sat (l : list A) (i : nat) {struct l} : Prop :=
+    match l with
+    | [] => False
+    | x :: t => match i with O => P x | S i' => nth_sat t i' end
+    end.
+End NthSat.
+
+Lemma nth_sat_spec {A} (P : A -> Prop) l : forall i, nth_sat P l i <-> exists x, nth_error l i = Some x /\ P x.
+Proof.
+  induction l as [|a l IH]; intros [|i]; cbn [nth_sat nth_error]; split;
+    try (intros (x & Hx & _); discriminate); try (intros []; fail).
+  - intro H. exists a. auto.
+  - intros (x & Hx & HP). inversion Hx; subst. exact HP.
+  - intro H. apply IH. exact H.
+  - intro H. apply IH. exact H.
+Qed.
+
+Lemma firstn_length_app {A} (l1 l2 : list A) : firstn (length l1) (l1 ++ l2) = l1.
+Proof. induction l1 as [|a l1 IH]; cbn [length firstn app]; [destruct l2; reflexivity | now rewrite IH]. Qed.
+
 Section RT.
   Variable re_match : N -> pystr -> bool.
   Variable e : env.
@@ -80,12 +103,16 @@ Section RT.
     end.
 
   (* scalars, enums by name and by value, Array/Deque of the fragment, Map from plain scalars to the
-     fragment, nested structures *)
+     fragment, Set of the fragment, Tuple of plain scalars, nested structures, AnyOf (Optional included) over
+     ANY options provided the value distinguishes them ([wfv]) *)
   Fixpoint frag (f : field) : bool :=
     match f with
     | FSeqEach _ g _ _ => frag g
     | FMapKV kf vf _ => plain_scalar kf && frag vf
     | FClassRef _ => true
+    | FAnyOf _ => true          (* the conditions on the options are on the VALUE: see [wfv] *)
+    | FSet false (Some g) _ => frag g                 (* Set[g]; an ImmutableSet comes back as a plain set *)
+    | FTuple items _ => forallb plain_scalar items    (* Tuple over plain scalars, positional or homogeneous *)
     | _ => scalar_frag f
     end.
 
@@ -104,6 +131,25 @@ Section RT.
     Variable recS : pyval -> res pyval.
     Variable recD : bool -> pystr -> pyval -> res pyval.
 
+    (* a stored value of a plain scalar declaration; the elements of a tuple against its item declarations: positions
+       beyond the declared ones (a homogeneous Tuple[T] holding more than one element) are appended RAW by the
+       deserializer, so they must be JSON scalars already *)
+    Definition wfv_plain (g : field) (x : pyval) : Prop :=
+      validate_weak re_match e g x = Ok tt /\ json_scalar x = true /\ x <> PNone.
+    Fixpoint tuple_wf (gs : list field) (xs : list pyval) : Prop :=
+      match gs, xs with
+      | [], _ => Forall (fun x => json_scalar x = true /\ x <> PNone) xs
+      | _ :: _, [] => False
+      | g :: gs', x :: xs' => wfv_plain g x /\ tuple_wf gs' xs'
+      end.
+
+    (* "this option does not match, try the next one": any Python exception, of whatever class *)
+    Definition rejects {A} (r : res A) : Prop := exists x, r = Raise x /\ model_exn x = false.
+    Definition skips_ser (g : field) (v : pyval) : Prop :=
+      rejects (_ <- validate_weak re_match e g v ;; ser_val re_match e ens recS g v).
+    Definition skips_deser (g : field) (j : pyval) : Prop :=
+      forall ku, rejects (deser_val re_match e ens recD ku false g j).
+
     (* v is a stored value of declaration f, in the shape the constructor leaves it *)
     Fixpoint wfv (f : field) (v : pyval) {struct f} : Prop :=
       match f with
@@ -116,6 +162,19 @@ Section RT.
           exists kv, v = PDict kv /\ Forall (fun p => wfv kf (fst p) /\ wfv vf (snd p)) kv /\
                      fresh_keys [] (map fst kv) = true
       | FClassRef c => (exists a, v = PStruct c a) /\ canon' v
+      | FSet false (Some g) _ =>
+          exists l, v = PSet false l /\ Forall (wfv g) l /\ py_dedup l = l /\ forallb py_hashable l = true
+      | FTuple items _ => exists l, v = PTuple l /\ tuple_wf items l
+      | FAnyOf fs =>
+          (* v is a value of one option g (the i-th) of the fragment, and it DISTINGUISHES the options: every option
+             listed before g rejects v on the way out and rejects the serialized v on the way in (such an option need
+             not be in the fragment, nor raise TypeError/ValueError: IndexError, KeyError, ... count as well) *)
+          v <> PNone /\
+          exists i,
+            nth_sat (fun g => frag g = true /\ wfv g v /\ validate_weak re_match e g v = Ok tt /\
+                              forall j, ser_val re_match e ens recS g v = Ok j ->
+                                        Forall (fun gk => skips_deser gk j) (firstn i fs)) fs i /\
+            Forall (fun gk => skips_ser gk v) (firstn i fs)
       | _ => False
       end.
 
@@ -154,7 +213,8 @@ Section RT.
     Lemma rt_val : forall f, frag f = true -> forall v, wfv f v -> rt_goal f v.
     Proof.
       induction f using field_ind'; intros Hf v Hw; try (cbn in Hf; discriminate);
-        try (apply rt_plain; [reflexivity | exact Hw]).
+        try (apply rt_plain; [reflexivity | exact Hw]);
+        try (destruct i; cbn in Hf; try discriminate).
       - (* FEnumLit *)
         destruct Hw as (Hin & Hok). exists v. cbn [ser_val].
         repeat split; auto using json_scalar_pure, json_value_ok_scalar, json_value_ok_not_none.
@@ -191,6 +251,59 @@ Section RT.
         split; [discriminate|].
         intros ku ign. destruct ku, k, ign; cbn [deser_val list_like]; cbn beta iota;
           rewrite ?H3, ?H3'; reflexivity.
+      - (* FSet false (Some f) *)
+        cbn [frag] in Hf. cbn [wfv] in Hw. destruct Hw as (l & -> & Hl & Hdd & Hh).
+        assert (HF : forall ku, exists js, mapR (ser_val re_match e ens recS f) l = Ok js /\
+                       Forall (fun j => json_pure j = true) js /\
+                       mapR (fun j => rewrap (deser_val re_match e ens recD ku false f j)) js = Ok l).
+        { intro ku. apply mapR_rt. eapply Forall_impl; [|exact Hl]. intros x Hx.
+          destruct (IHf Hf x Hx) as (j & H1 & H2 & _ & H4).
+          exists j. rewrite H4. split; [exact H1|]. split; [exact H2|reflexivity]. }
+        destruct (HF true) as (js & H1 & H2 & H3).
+        destruct (HF false) as (js' & H1' & _ & H3').
+        rewrite H1 in H1'. inversion H1'; subst js'.
+        exists (PList js). unfold rt_goal. cbn [ser_val unless_none ser_each iter_items]. rewrite H1. cbn [bind].
+        split; [reflexivity|]. split.
+        { cbn [json_pure]. apply forallb_forall. intros y Hy. rewrite Forall_forall in H2. auto. }
+        split; [discriminate|].
+        intros ku ign. destruct ku, ign; cbn [deser_val list_like]; cbn beta iota zeta;
+          rewrite ?H3, ?H3'; cbn [bind build_seq]; rewrite Hh, Hdd; reflexivity.
+      - (* FTuple *)
+        cbn [frag] in Hf. cbn [wfv] in Hw. destruct Hw as (l & -> & Hl).
+        (* every element is a JSON scalar: serialized as it is, with or without its declaration *)
+        assert (Hsc : forall gs xs, tuple_wf gs xs -> Forall (fun x => json_scalar x = true /\ x <> PNone) xs).
+        { induction gs as [|g gs IHg]; intros [|x xs] Hw; cbn [tuple_wf] in Hw; auto; try contradiction.
+          destruct Hw as ((_ & Ha & Hb) & Hw). constructor; auto. }
+        assert (Hany : forall xs, Forall (fun x => json_scalar x = true /\ x <> PNone) xs -> mapR (ser_any recS) xs = Ok xs).
+        { induction 1 as [|x xs (Ha & _) _ IHx]; [reflexivity|]. cbn [mapR]. rewrite IHx.
+          destruct x as [| | [] | | | | | | | | |]; try discriminate; reflexivity. }
+        pose proof (Hsc _ _ Hl) as Hall.
+        exists (PList l). unfold rt_goal. cbn [ser_val unless_none ser_plain_seq ser_each iter_items].
+        rewrite (Hany l Hall). cbn [bind]. split; [reflexivity|]. split.
+        { cbn [json_pure]. apply forallb_forall. intros y Hy. rewrite Forall_forall in Hall.
+          apply json_scalar_pure. apply Hall. exact Hy. }
+        split; [discriminate|].
+        intros ku ign.
+        assert (Hpos : forall gs xs, forallb plain_scalar gs = true -> tuple_wf gs xs ->
+                  (fix pos (fs0 : list field) (vs : list pyval) {struct fs0} : res (list pyval) :=
+                     match fs0 with
+                     | [] => Ok vs
+                     | g :: fs' =>
+                         match vs with
+                         | [] => Raise IndexError
+                         | x :: vs' =>
+                             y <- rewrap (deser_val re_match e ens recD ku false g x) ;;
+                             ys <- pos fs' vs' ;; Ok (y :: ys)
+                         end
+                     end) gs xs = Ok xs).
+        { induction gs as [|g gs IHg]; intros xs Hp Hw; [reflexivity|].
+          cbn [forallb] in Hp. apply andb_true_iff in Hp as [Hp1 Hp2].
+          destruct xs as [|x xs]; cbn [tuple_wf] in Hw; [contradiction|]. destruct Hw as (Hx & Hw).
+          destruct (rt_plain g x Hp1) as [(jx & Hs1 & _ & _ & Hd1) Hsx].
+          { destruct g; try discriminate; exact Hx. }
+          rewrite Hsx in Hs1. inversion Hs1; subst jx.
+          rewrite Hd1. cbn [rewrap bind]. rewrite (IHg xs Hp2 Hw). reflexivity. }
+        destruct ign; cbn [deser_val list_like]; cbn beta iota zeta; rewrite (Hpos fs l Hf Hl); reflexivity.
       - (* FMapKV *)
         cbn [frag] in Hf. apply andb_true_iff in Hf as [Hk Hv].
         destruct Hw as (kv & -> & Hkv & Hfresh).
@@ -239,6 +352,45 @@ Section RT.
         split; [discriminate|].
         intros ku ign. destruct ign; cbn [deser_val]; cbn beta iota; fold df; rewrite H3; cbn [bind];
           rewrite Hhash2, dict_of_pairs_fresh by (cbn [map]; exact Hfresh); reflexivity.
+      - (* FAnyOf *)
+        rename H into IHfs. destruct Hw as (Hnn & i & Hsat & HskS).
+        apply nth_sat_spec in Hsat. destruct Hsat as (g & Hn & Hfr & Hwg & Hval & HskD).
+        assert (Hg : rt_goal g v).
+        { rewrite Forall_forall in IHfs. apply (IHfs g); auto. eapply nth_error_In; exact Hn. }
+        destruct Hg as (j & Hs & Hp & Hjn & Hd). specialize (HskD j Hs).
+        destruct (nth_error_split fs i Hn) as (l1 & l2 & Hfs & Hlen).
+        assert (Hpre : firstn i fs = l1) by (rewrite Hfs, <- Hlen; apply firstn_length_app).
+        rewrite Hpre in HskS, HskD. clear Hpre Hn.
+        exists j. split; [|split; [exact Hp | split; [exact Hjn|]]].
+        + (* serialize_multifield_wrapper: the options before g are skipped, g serializes *)
+          cbn [ser_val].
+          match goal with |- ?F fs = _ => set (go := F) end.
+          assert (Hskip : forall pre rest, Forall (fun gk => skips_ser gk v) pre -> go (pre ++ rest) = go rest).
+          { induction pre as [|gk pre IHp]; intros rest HF; [reflexivity|].
+            inversion HF as [|? ? (x & Hx & Hm) HF']; subst. cbn [app]. unfold go at 1. cbn fix beta iota. fold go.
+            rewrite Hx, Hm. apply IHp. exact HF'. }
+          rewrite Hfs, Hskip by exact HskS. unfold go. cbn fix beta iota. rewrite Hval. cbn [bind]. rewrite Hs. reflexivity.
+        + (* deserialize_multifield_wrapper: the options before g reject the document, g reads it *)
+          intros ku ign. rewrite deser_not_none by exact Hjn.
+          assert (Hmulti : forall des found failures,
+                     (fix go (gs : list field) (des : pyval) (found : bool) (failures : nat) {struct gs} : res pyval :=
+                        match gs with
+                        | [] => if Nat.eqb failures (length fs) && negb false then Raise ValueError else Ok des
+                        | g0 :: t =>
+                            match deser_val re_match e ens recD ku false g0 j with
+                            | Ok d => Ok d
+                            | Raise x => if model_exn x then Raise x else go t des found (S failures)
+                            end
+                        end) fs des found failures = Ok v).
+          { match goal with |- forall des found failures, ?F fs des found failures = _ => set (go := F) end.
+            assert (Hskip : forall pre rest des found failures, Forall (fun gk => skips_deser gk j) pre ->
+                              exists n, go (pre ++ rest) des found failures = go rest des found n).
+            { induction pre as [|gk pre IHp]; intros rest des found failures HF; [exists failures; reflexivity|].
+              inversion HF as [|? ? Hk HF']; subst. destruct (Hk ku) as (x & Hx & Hm).
+              cbn [app]. unfold go at 1. cbn fix beta iota. fold go. rewrite Hx, Hm. apply IHp. exact HF'. }
+            intros des found failures. rewrite Hfs. destruct (Hskip l1 (g :: l2) des found failures HskD) as (n & ->).
+            unfold go. cbn fix beta iota. rewrite Hd. reflexivity. }
+          destruct j; try congruence; cbn [deser_val]; cbn beta iota; apply Hmulti.
       - (* FClassRef *)
         destruct Hw as ((a & ->) & Hc). destruct (Hrec c a Hc) as (kv & Hs & Hp & Hd).
         exists (PDict kv). cbn [ser_val unless_none]. repeat split; auto; try discriminate.
@@ -254,12 +406,18 @@ Section RT.
       - destruct Hw as (_ & H). now apply json_value_ok_not_none.
       - destruct Hw as (n & x & -> & _). discriminate.
       - destruct Hw as (l & -> & _). destruct k; discriminate.
+      - destruct immutable_set; [discriminate|]. destruct item; [|discriminate].
+        destruct Hw as (l & -> & _). discriminate.
+      - destruct Hw as (l & -> & _). discriminate.
       - destruct Hw as (kv & -> & _). discriminate.
+      - destruct Hw as (H & _). exact H.
       - destruct Hw as ((a & ->) & _). discriminate.
     Qed.
   End Fields.
 
   (* ---------------------------------------------------------------- instances *)
+
+  Variable fl : dflags.       (* process-wide deserialization defaults: any *)
 
   Definition sel (a : attrs) (names : list pystr) : attrs :=
     flat_map (fun n => match alist_get a n with Some v => [(n, v)] | None => [] end) names.
@@ -284,7 +442,8 @@ Section RT.
                       defaults_of c a = [] /\
                       hook_ok (c_hook c) a = true /\
                       Forall (fun p => exists fd, find_field (c_fields c) (fst p) = Some fd /\
-                                                  wfv (canon n') (fd_field fd) (snd p) /\
+                                                  wfv (canon n') (ser_struct re_match e ens n')
+                                                      (deser_struct re_match e ens fl n') (fd_field fd) (snd p) /\
                                                   vset re_match e (fd_field fd) (snd p) = Ok (snd p)) a
         | _ => False
         end
@@ -378,8 +537,6 @@ Section RT.
     apply andb_true_iff in H as [H1 H2]. rewrite H1. cbn [negb]. auto.
   Qed.
 
-  Variable fl : dflags.
-
   Theorem rt_struct : forall n v, canon n v ->
     exists kv, ser_struct re_match e ens n v = Ok (PDict kv) /\ json_pure (PDict kv) = true /\
                forall c a, v = PStruct c a ->
@@ -405,7 +562,7 @@ Section RT.
       assert (Hfr : frag (fd_field fd) = true).
       { rewrite forallb_forall in Hfrag. apply Hfrag. now apply (find_field_In _ _ _ Hfd). }
       repeat split; auto.
-      - now apply (wfv_not_none (canon n) (fd_field fd)).
+      - now apply (wfv_not_none (canon n) recS recD (fd_field fd)).
       - now apply (rt_val (canon n) recS recD Hrec). }
     (* serialization of the attributes *)
     set (F := fun p : pystr * pyval =>
@@ -489,4 +646,186 @@ Section RT.
     - eapply Forall_impl; [|exact Hper]. intros p (fd & H1 & H2 & H3 & _). exists fd. auto.
     - exact Hdup.
   Qed.
+  (* ---------------------------------------------------------------- the constructor on a canonical instance *)
+
+  Lemma construct_canon n cn a c :
+    canon (S n) (PStruct cn a) -> find_class e cn = Some c ->
+    construct re_match e c a = Ok (PStruct cn a).
+  Proof.
+    intros Hc Hfind0. destruct Hc as (c' & Hfind & Hfrag & Hsel & Hdup & Hreq & Hdef & Hhook & Hattrs).
+    rewrite Hfind0 in Hfind. inversion Hfind; subst c'. clear Hfind. rename Hfind0 into Hfind.
+    unfold class_frag in Hfrag. apply andb_true_iff in Hfrag as [Hfrag Hnd].
+    assert (Hkeys : forallb (fun p : pystr * pyval => str_in (fst p) (field_names c)) a = true).
+    { apply forallb_forall. intros p Hp. rewrite Forall_forall in Hattrs.
+      destruct (Hattrs p Hp) as (fd & Hfd & _). destruct (find_field_In _ _ _ Hfd) as [Hin Hn].
+      apply str_in_In. unfold field_names. rewrite <- Hn. now apply in_map. }
+    unfold construct. rewrite Hdup. unfold bind_ok. rewrite Hreq, Hkeys, orb_true_r. cbn [andb negb].
+    rewrite (filter_false _ _ Hkeys), (filter_true _ _ Hkeys), Hdef. cbn [set_all bind].
+    rewrite (set_all_ok c a []).
+    - cbn [app bind]. rewrite Hhook. now rewrite (find_class_name _ _ _ Hfind).
+    - eapply Forall_impl; [|exact Hattrs]. intros p (fd & H1 & H2 & H3). exists fd. repeat split; auto.
+      apply (wfv_not_none (canon n) (ser_struct re_match e ens n) (deser_struct re_match e ens fl n) (fd_field fd)); auto.
+      rewrite forallb_forall in Hfrag. apply Hfrag. now apply (find_field_In _ _ _ H1).
+    - exact Hdup.
+  Qed.
+
+  (* ---------------------------------------------------------------- compact single-field wrappers *)
+
+  Lemma compact_eligible_spec c fd :
+    compact_eligible c = Some fd ->
+    c_fields c = [fd] /\ c_required c = [fd_name fd] /\ c_additional c = false.
+  Proof.
+    unfold compact_eligible. destruct (c_fields c) as [|fd0 [|? ?]]; try discriminate.
+    destruct (c_required c) as [|r [|? ?]]; try discriminate.
+    destruct (pystr_eqb r (fd_name fd0)) eqn:E; cbn [andb]; [|discriminate].
+    destruct (c_additional c); cbn [negb]; [discriminate|].
+    intro H. inversion H; subst. apply pystr_eqb_spec in E. subst. auto.
+  Qed.
+
+  (* serialize(x, compact=True) of a wrapper emits the bare serialized field; with compact deserialization switched
+     on it is read back as the wrapper -- unless the serialized field is a JSON object (then the document is read as
+     the wrapper's own object: F24) *)
+  Theorem rt_compact : forall n cn a c fd,
+    canon (S n) (PStruct cn a) -> find_class e cn = Some c -> compact_eligible c = Some fd ->
+    exists v j,
+      a = [(fd_name fd, v)] /\
+      ser_val re_match e ens (ser_struct re_match e ens n) (fd_field fd) v = Ok j /\
+      serialize re_match e ens (S n) true (PStruct cn a) = Ok j /\ json_pure j = true /\ j <> PNone /\
+      (df_compact fl = true -> (forall kv, j <> PDict kv) ->
+       forall ku, deserialize re_match e ens fl (S n) ku cn j = Ok (PStruct cn a)).
+  Proof.
+    intros n cn a c fd Hc Hfind Hce.
+    pose proof (construct_canon n cn a c Hc Hfind) as Hcons.
+    destruct Hc as (c' & Hfind' & Hfrag & Hsel & Hdup & Hreq & Hdef & Hhook & Hattrs).
+    rewrite Hfind in Hfind'. inversion Hfind'; subst c'. clear Hfind'.
+    destruct (compact_eligible_spec c fd Hce) as (Hfields & Hrequired & Hadd).
+    unfold class_frag in Hfrag. apply andb_true_iff in Hfrag as [Hfrag _].
+    rewrite Hfields in Hfrag. cbn [forallb] in Hfrag. rewrite andb_true_r in Hfrag.
+    (* the instance has exactly the one attribute *)
+    rewrite Hrequired in Hreq. cbn [forallb] in Hreq. rewrite andb_true_r in Hreq.
+    unfold alist_has in Hreq. destruct (alist_get a (fd_name fd)) as [v|] eqn:Hget; [|discriminate].
+    assert (Ha : a = [(fd_name fd, v)]).
+    { rewrite <- Hsel. unfold field_names. rewrite Hfields. cbn [map sel flat_map]. rewrite Hget. reflexivity. }
+    subst a. inversion Hattrs as [|? ? (fd' & Hfd' & Hw & Hv) _]; subst. cbn [fst snd] in *.
+    rewrite Hfields in Hfd'. cbn [find_field] in Hfd'. rewrite pystr_eqb_refl in Hfd'. inversion Hfd'; subst fd'.
+    set (recS := ser_struct re_match e ens n) in *.
+    set (recD := deser_struct re_match e ens fl n) in *.
+    assert (Hrec : forall c0 a0, canon n (PStruct c0 a0) ->
+              exists kv, recS (PStruct c0 a0) = Ok (PDict kv) /\ json_pure (PDict kv) = true /\
+                         forall ku, recD ku c0 (PDict kv) = Ok (PStruct c0 a0)).
+    { intros c0 a0 H0. destruct (rt_struct _ _ H0) as (kv & H1 & H2 & H3). exists kv. repeat split; auto.
+      intro ku. exact (H3 c0 a0 eq_refl ku). }
+    destruct (rt_val (canon n) recS recD Hrec (fd_field fd) Hfrag v Hw) as (j & Hs & Hp & Hjn & Hd).
+    exists v, j. split; [reflexivity|]. split; [exact Hs|]. split.
+    { unfold serialize. rewrite Hfind, Hce. cbn [alist_get]. rewrite pystr_eqb_refl. exact Hs. }
+    split; [exact Hp|]. split; [exact Hjn|].
+    intros Hcomp Hnd ku. unfold deserialize. rewrite Hfind. cbn [deser_struct]. rewrite Hfind. fold recD.
+    destruct j; try (exfalso; eapply Hnd; reflexivity); rewrite Hcomp, Hce, Hd; cbn [bind]; exact Hcons.
+  Qed.
+
+  (* ---------------------------------------------------------------- an enum declared by value *)
+
+  (* the serialized form of a member of a by-value enum is the member's VALUE -- also when that value is falsy (0, "",
+     False, 0.0) -- never its name, and it is read back as the member *)
+  Lemma enum_by_value_rt recS recD cls members n x :
+    enum_by_value ens cls = true -> enum_wf cls members (PEnum cls n x) ->
+    ser_val re_match e ens recS (FEnumCls cls members) (PEnum cls n x) = Ok x /\
+    forall ku ign, deser_val re_match e ens recD ku ign (FEnumCls cls members) x = Ok (PEnum cls n x).
+  Proof.
+    intros Ebv (n0 & x0 & Heq & Hm & Hall & Hbv). inversion Heq; subst n0 x0. clear Heq.
+    destruct (Hbv Ebv) as (Hx & Hfind). unfold all_members in *.
+    cbn [ser_val ser_enum_member]. rewrite Ebv, Hx. split; [reflexivity|].
+    intros ku ign. rewrite deser_not_none by auto using json_value_ok_not_none.
+    assert (Hh : py_hashable x = true) by auto using json_scalar_hashable, json_value_ok_scalar.
+    destruct x; try discriminate; cbn [deser_val]; cbn beta iota; unfold deser_enum_cls;
+      rewrite Ebv, Hh; cbn [negb]; rewrite Hfind; reflexivity.
+  Qed.
+
+  (* ---------------------------------------------------------------- the statements of Props/C05.v *)
+
+  Lemma c05_pure : forall n c a,
+      canon n (PStruct c a) ->
+      exists j, serialize re_match e ens n false (PStruct c a) = Ok j /\ json_pure j = true.
+  Proof.
+    intros n c a H. destruct (rt_struct n _ H) as (kv & H1 & H2 & _).
+    exists (PDict kv). split; [|exact H2].
+    unfold serialize. destruct n; [destruct H|]. destruct H as (cd & Hf & _). rewrite Hf. exact H1.
+  Qed.
+
+  Lemma c05_roundtrip : forall n c a,
+      canon n (PStruct c a) ->
+      exists j, serialize re_match e ens n false (PStruct c a) = Ok j /\
+                forall ku, deserialize re_match e ens fl n ku c j = Ok (PStruct c a).
+  Proof.
+    intros n c a H. destruct (rt_struct n _ H) as (kv & H1 & _ & H3).
+    exists (PDict kv). destruct n; [destruct H|]. pose proof H as H'. destruct H' as (cd & Hf & _). split.
+    - unfold serialize. rewrite Hf. exact H1.
+    - intro ku. unfold deserialize. rewrite Hf. exact (H3 c a eq_refl _).
+  Qed.
+
+  Lemma c05_falsy : forall (canon' : pyval -> Prop) recS recD,
+      (forall c a, canon' (PStruct c a) ->
+         exists kv, recS (PStruct c a) = Ok (PDict kv) /\ json_pure (PDict kv) = true /\
+                    forall ku, recD ku c (PDict kv) = Ok (PStruct c a)) ->
+      forall f v, frag f = true -> wfv canon' recS recD f v -> py_truthy v = false ->
+      exists j, ser_val re_match e ens recS f v = Ok j /\ json_pure j = true /\ j <> PNone /\
+                forall ku ign, deser_val re_match e ens recD ku ign f j = Ok v.
+  Proof. intros canon' recS recD Hrec f v Hf Hw _. exact (rt_val canon' recS recD Hrec f Hf v Hw). Qed.
+
+  (* AnyOf, stated on its own: a value of the i-th option that every earlier option rejects both ways round-trips *)
+  Lemma c05_anyof : forall (canon' : pyval -> Prop) recS recD,
+      (forall c a, canon' (PStruct c a) ->
+         exists kv, recS (PStruct c a) = Ok (PDict kv) /\ json_pure (PDict kv) = true /\
+                    forall ku, recD ku c (PDict kv) = Ok (PStruct c a)) ->
+      forall pre g post v,
+        frag g = true -> wfv canon' recS recD g v -> validate_weak re_match e g v = Ok tt ->
+        Forall (fun gk => skips_ser recS gk v) pre ->
+        (forall j, ser_val re_match e ens recS g v = Ok j -> Forall (fun gk => skips_deser recD gk j) pre) ->
+        exists j, ser_val re_match e ens recS g v = Ok j /\
+                  ser_val re_match e ens recS (FAnyOf (pre ++ g :: post)) v = Ok j /\ json_pure j = true /\
+                  forall ku ign, deser_val re_match e ens recD ku ign (FAnyOf (pre ++ g :: post)) j = Ok v.
+  Proof.
+    intros canon' recS recD Hrec pre g post v Hfr Hw Hval HS HD.
+    assert (Hnn : v <> PNone) by (apply (wfv_not_none canon' recS recD g); assumption).
+    assert (Hwf : wfv canon' recS recD (FAnyOf (pre ++ g :: post)) v).
+    { cbn [wfv]. split; [exact Hnn|]. exists (length pre). rewrite firstn_length_app. split; [|exact HS].
+      apply nth_sat_spec. exists g. split.
+      - rewrite nth_error_app2 by apply le_n. now rewrite Nat.sub_diag.
+      - auto. }
+    destruct (rt_val canon' recS recD Hrec g Hfr v Hw) as (j0 & Hs0 & _).
+    destruct (rt_val canon' recS recD Hrec (FAnyOf (pre ++ g :: post)) eq_refl v Hwf) as (j & Hs & Hp & _ & Hd).
+    exists j0. split; [exact Hs0|].
+    (* the serialized form is the one of option g *)
+    assert (Hj : j = j0).
+    { clear Hd Hp. cbn [ser_val] in Hs. revert Hs.
+      match goal with |- ?F (pre ++ g :: post) = _ -> _ => set (go := F) end.
+      assert (Hskip : forall p rest, Forall (fun gk => skips_ser recS gk v) p -> go (p ++ rest) = go rest).
+      { induction p as [|gk p IHp]; intros rest HF; [reflexivity|].
+        inversion HF as [|? ? (x & Hx & Hm) HF']; subst. cbn [app]. unfold go at 1. cbn fix beta iota. fold go.
+        rewrite Hx, Hm. apply IHp. exact HF'. }
+      rewrite Hskip by exact HS. unfold go. cbn fix beta iota. rewrite Hval. cbn [bind]. rewrite Hs0. congruence. }
+    subst j0. auto.
+  Qed.
 End RT.
+
+(* ---- the full statement (every valid instance of every class over the property's field vocabulary) is false of the
+   faithful model: F17 *)
+Definition C05_statement : Prop :=
+  forall re_match e ens fl n c a cd,
+    find_class e c = Some cd -> struct_ok re_match e cd a = true ->
+    exists j, serialize re_match e ens n false (PStruct c a) = Ok j /\ json_pure j = true /\
+              exists x', deserialize re_match e ens fl n None c j = Ok x' /\ py_eq (PStruct c a) x' = true.
+
+Definition opt_str : field := FAnyOf [FString no_strc; FNone].
+Definition cls_A : classdef :=
+  {| c_name := s2p "A"; c_ancestors := []; c_fields := [ {| fd_name := s2p "a"; fd_field := opt_str; fd_immutable := false; fd_default := None |} ];
+     c_required := [s2p "a"]; c_additional := true; c_ignore_none := false; c_immutable := false; c_hook := HookNone |}.
+
+Lemma c05_refuted_required_none : ~ C05_statement.
+Proof.
+  intro H.
+  destruct (H (fun _ _ => true) [cls_A] [] {| df_ignore_invalid := true; df_compact := false |} 3%nat
+              (s2p "A") [(s2p "a", PNone)] cls_A eq_refl eq_refl) as (j & Hs & _ & x' & Hd & _).
+  vm_compute in Hs. inversion Hs; subst j. vm_compute in Hd. discriminate.
+Qed.
+
